@@ -119,6 +119,8 @@ def gen_labware(rng, name, kind=None, vclass="int", fill="mixed", limits="loose"
     except ValueError:
         i = 0
     d["grid_site"] = [10 + 3 * i, 1 + i]
+    if kind == "trough" and naming == "explicit" and rng.random() < 0.15:
+        d["legacy"] = True
     if naming == "explicit":
         d["names"] = {f"{r},{c}": f"{name}@{r}.{c}" for r in range(rows) for c in range(cols) if initial[r][c] > 0}
     return d
@@ -141,6 +143,15 @@ def build_labware(desc):
     import robotools
 
     names = desc.get("names")
+    if desc["kind"] == "trough" and desc.get("legacy"):
+        # legacy construction: a Labware with virtual rows (not an instance of Trough)
+        kw = {}
+        if names is not None:
+            kw["component_names"] = {well_id(0, int(k.split(",")[1])): v for k, v in names.items()}
+        return robotools.Labware(
+            desc["name"], 1, desc["columns"], min_volume=desc["min_volume"], max_volume=desc["max_volume"],
+            initial_volumes=np.array(desc["initial"], dtype=float), virtual_rows=desc["virtual_rows"], **kw,
+        )
     if desc["kind"] == "trough":
         kw = {}
         if names is not None:
